@@ -21,9 +21,12 @@ TheVals(line) == IF "vals" \in DOMAIN line THEN line.vals ELSE Vals \o VX
 FrontOf(p) == SubSeq(p, 1, Len(p) - 1)
 
 Verdicts(r) == {r.d, r.f, r.m, r.dc, r.mc, r.im}
+ReqVerdicts(r) == {r.qd, r.qf, r.qm}      \* read as a request
+RepVerdicts(r) == {r.pd, r.pf, r.pm}      \* read as a response
 
 ErrBad(v, e) ==
    IF e.k # "schema" THEN {}
+   ELSE IF e.ptr2 # e.ptr THEN {"pointer_stable_under_reading"}
    ELSE IF e.field = "required"
    THEN IF ~(Len(e.ptr) > 0 /\ Exists(v, FrontOf(e.ptr)) /\ At(v, FrontOf(e.ptr)).t = "obj")
         THEN {"pointer_in_data"}
@@ -37,6 +40,8 @@ ErrAt(r, x) == IF x[1] = "default" THEN r.de[x[2]] ELSE r.me[x[2]]
 
 FailedAt(v, r) ==
    (IF Cardinality(Verdicts(r)) # 1 \/ "P" \in Verdicts(r) THEN {"same_verdict"} ELSE {})
+   \cup (IF Cardinality(ReqVerdicts(r)) # 1 \/ "P" \in ReqVerdicts(r) THEN {"same_verdict_as_request"} ELSE {})
+   \cup (IF Cardinality(RepVerdicts(r)) # 1 \/ "P" \in RepVerdicts(r) THEN {"same_verdict_as_response"} ELSE {})
    \cup UNION {ErrBad(v, ErrAt(r, x)) : x \in Errs(r)}
 
 LineOK(line) ==
